@@ -264,6 +264,9 @@ func storedBlock(final bool, lenField int, data []byte) []byte {
 
 func runC15(r *vhlib.Run) {
 	rng := r.Rng
+	// xflate.Reader over streams whose index is consistent but whose chunks are DAMAGED DEFLATE (bytes handed
+	// over together with the error or with io.EOF), live against the Reader model, per call
+	runWXRLatch(r)
 	m := vhlib.StartModel()
 	defer m.Close()
 	syncM := []byte{0, 0, 0xff, 0xff}
